@@ -77,8 +77,10 @@ class PathCtx:
         self.overrides: dict[int, object] = {}
         self.loop_hooks: list = []
         self.forks = 0
-        self._str2real = z3.Function("str_to_real", StrSort, z3.RealSort())
-        self._real2str = z3.Function("real_to_str", z3.RealSort(), StrSort)
+        from .sym import REAL2STR, STR2REAL
+
+        self._str2real = STR2REAL
+        self._real2str = REAL2STR
 
     # ---- branching -------------------------------------------------------------
     def all_facts(self):
